@@ -228,10 +228,10 @@ V("maxvalue-neutral-or-bits", "neutral", ["C09", "C02"], H + "max_value_dom_heur
 
 # ------------------------------------------------------------------------------------------------ search loop
 V("solveone-guard-weak", "break", ["C19", "C16"], BS,
-  "if stacks_top[0] + 2 >= len(shr_domains_stack):", "if stacks_top[0] + 1 >= len(shr_domains_stack):",
+  "if stacks_top[0] >= len(shr_domains_stack) - 2:", "if stacks_top[0] >= len(shr_domains_stack) - 1:",
   "capacity guard allows a double push at the last free level", "solve_one")
 V("solveone-guard-removed", "break", ["C19", "C16"], BS,
-  """            if stacks_top[0] + 2 >= len(shr_domains_stack):  # a value heuristic pushes at most two choice points
+  """            if stacks_top[0] >= len(shr_domains_stack) - 2:  # a value heuristic pushes at most two choice points
                 raise IndexError("The choice points stack is full, please increase stack_max_height")
 """, "", "no capacity guard before the value heuristic", "solve_one")
 V("solveone-events-masked", "break", ["C09", "C01", "C08"], BS,
@@ -473,7 +473,7 @@ V("shave-no-ground-neutral", "neutral", ["C10"], SH,
 V("shave-no-backtrack", "break", ["C10"], SH, None, None, "probe's choice point is never popped", "shave_bound", within="def shave_bound",
   edits=[{"old": "    backtrack(\n        statistics,\n        not_entailed_propagators_stack,\n        dom_update_stack,\n        stacks_top,\n        triggered_propagators,\n        triggers,\n    )\n", "new": ""}])
 V("shave-probe-guard-removed", "break", ["C19", "C16", "C10"], SH,
-  "        if stacks_top[0] + 1 >= len(shr_domains_stack):  # no room left for the temporary choice point of a probe\n            break\n", "",
+  "        if stacks_top[0] >= len(shr_domains_stack) - 1:  # no room left for the temporary choice point of a probe\n            break\n", "",
   "probe at the last level", "shaving_consistency_algorithm")
 V("shave-counter-dropped", "break", ["C17"], SH, "        statistics[STATS_IDX_ALG_SHAVING_NB] += 1\n", "", "probes not counted", "shaving_consistency_algorithm")
 V("shave-counter-swapped", "break", ["C17"], SH, "            statistics[STATS_IDX_ALG_SHAVING_CHANGE_NB] += 1\n        else:", "            statistics[STATS_IDX_ALG_SHAVING_NO_CHANGE_NB] += 1\n        else:",
@@ -482,6 +482,9 @@ V("shave-no-repropagation", "break", ["C10"], SH, "        if has_shaved:\n     
   "no propagation after a successful shave beyond the first domain", "shaving_consistency_algorithm")
 
 # --------------------------------------------------------------------------------------------------- capacity
+V("solveone-guard-narrow-sum", "break", ["C15", "C16", "C19"], BS,
+  "if stacks_top[0] >= len(shr_domains_stack) - 2:", "if stacks_top[0] + 2 >= len(shr_domains_stack):",
+  "guard adds to the 8-bit level pointer: wraps in interpreted mode at 254/255", "solve_one")
 V("height-limit-512", "break", ["C19", "C16"], BS, "if not 1 <= stack_max_height <= 256:", "if not 1 <= stack_max_height <= 512:", "height beyond the 8-bit pointer accepted", "__init__")
 V("height-check-removed", "break", ["C19", "C16"], BS,
   '        if not 1 <= stack_max_height <= 256:\n            raise ValueError("stack_max_height must be between 1 and 256 (the stack pointer is an 8-bit unsigned integer)")\n', "",
